@@ -163,7 +163,7 @@ func (c *Ctx) Options() *ir.Options {
 // PureCall: the stdlib model table – results are functions of the arguments.
 func PureCall(name string) bool {
 	switch name {
-	case "reflect.TypeOf",
+	case "reflect.TypeOf", "reflect.TypeFor", "strings.Cut",
 		"(reflect.Type).Field", "(reflect.Type).NumField", "(reflect.Type).Elem", "(reflect.Type).Kind",
 		"(reflect.Type).String", "(reflect.Type).AssignableTo", "(reflect.Type).Name", "(reflect.Type).ConvertibleTo",
 		"(reflect.Type).Implements", "(reflect.Type).Comparable", "(reflect.Type).PkgPath",
@@ -232,6 +232,44 @@ func (c *Ctx) analyzeLoopsFrom(fn *ssa.Function, st *ir.State, cacheKey string) 
 	o := *c.Options()
 	o.LoopInline = true
 	an := ir.Analyze(fn, st, &o)
+	c.cache[k] = an
+	if !c.Funcs[k] {
+		c.Funcs[k] = true
+		c.Paths += an.NPaths
+		for _, p := range an.AllPaths() {
+			c.Events += len(p.Steps)
+		}
+	}
+	return an
+}
+
+// AnalyzeLoopsExcept: AnalyzeLoops keeping the given functions opaque (calls to them stay call events / terms).
+func (c *Ctx) AnalyzeLoopsExcept(fn *ssa.Function, except ...*ssa.Function) *ir.Analysis {
+	k := ir.FuncName(fn) + "|loops-except"
+	for _, e := range except {
+		if e != nil {
+			k += "|" + ir.FuncName(e)
+		}
+	}
+	if a, ok := c.cache[k]; ok {
+		return a
+	}
+	o := *c.Options()
+	o.LoopInline = true
+	base := o.Inline
+	o.Inline = func(f *ssa.Function) bool {
+		g := f
+		if og := f.Origin(); og != nil {
+			g = og
+		}
+		for _, e := range except {
+			if e != nil && (e == f || e == g) {
+				return false
+			}
+		}
+		return base == nil || base(f)
+	}
+	an := ir.Analyze(fn, ir.NewRootState(fn, nil, nil, nil), &o)
 	c.cache[k] = an
 	if !c.Funcs[k] {
 		c.Funcs[k] = true
